@@ -479,7 +479,8 @@ Inductive case :=
 | KDecHunk (input : bytes)
 | KDecContent (input : bytes)
 | KEncFile (f : fheader) (c : content)
-| KRanges (h : hheader).
+| KRanges (h : hheader)
+| KTrimEnd (s : bytes).            (* str::trim_end, used by the encoder as found *)
 
 Inductive obs :=
 | OOptN (r : option N)
@@ -503,6 +504,7 @@ Definition run (c : case) : obs :=
   | KEncFile f c => OBytes (encode_file (f, c))
   | KRanges h => ORanges (a <- line_range (old_no h) (old_sz h) ;;
                           b <- line_range (new_no h) (new_sz h) ;; Ok (a, b))
+  | KTrimEnd s => OBytes (Ok (trim_end s))
   end.
 
 Definition bytes_eqb : bytes -> bytes -> bool := list_eqb N.eqb.
